@@ -809,7 +809,8 @@ where
 
                         // Join params with comma and space
                         let params_combined = if params_docs.is_empty() {
-                            allocator.nil()
+                            // `||` would be tokenized as the logical-or operator
+                            allocator.text(" ")
                         } else {
                             allocator.intersperse(params_docs.clone(), allocator.text(", "))
                         };
